@@ -7,8 +7,7 @@ package worker
 // banner.Proxy; for the shim script websockets.ShimBody's function is applied
 // to responses whose body is a scripted reader. The oracle is evaluated here
 // (bodies never leave the process); the orchestrator aggregates the verdict
-// lines. This file is split in c14.go (cases, runner), c14_oracle.go is NOT
-// used: everything lives here so that only one worker file belongs to C14.
+// lines.
 
 import (
 	"bufio"
@@ -112,6 +111,7 @@ var c14Accepts = []c14Opt{
 	{"list", []string{"text/html,application/xhtml+xml,application/xml;q=0.9,*/*;q=0.8"}, c14Yes},
 	{"list-mid", []string{"application/json, text/html;q=0.9, */*;q=0.1"}, c14Yes},
 	{"json", []string{"application/json"}, c14No},
+	{"xhtml-only", []string{"application/xhtml+xml,application/xml;q=0.9"}, c14No},
 	{"upper", []string{"TEXT/HTML"}, c14Open},
 	{"second-line", []string{"application/json", "text/html"}, c14Open},
 	{"first-line", []string{"text/html", "application/json"}, c14Yes},
@@ -180,39 +180,39 @@ var c14Heights = []string{"40px", "10%"}
 
 // c14BannerCase is one scripted request/handler pair.
 type c14BannerCase struct {
-	Idx      int      `json:"idx"`
-	ID       string   `json:"id"`
-	Gen      string   `json:"gen"` // near-D | product
-	Method   string   `json:"method"`
-	Host     string   `json:"host"`
-	Target   string   `json:"target"`
-	URLClass string   `json:"url_class"`
-	Accept   c14Opt   `json:"accept"`
-	SFM      c14Opt   `json:"sec_fetch_mode"`
-	SFD      c14Opt   `json:"sec_fetch_dest"`
-	RefClass string   `json:"referer_class"`
-	Referer  string   `json:"referer"`
-	RefTri   int      `json:"-"`
-	Status   int      `json:"status"`
-	CT       c14Opt   `json:"content_type"`
-	CD       c14Opt   `json:"content_disposition"`
-	CE       string   `json:"content_encoding"`
+	Idx      int         `json:"idx"`
+	ID       string      `json:"id"`
+	Gen      string      `json:"gen"` // near-D | product
+	Method   string      `json:"method"`
+	Host     string      `json:"host"`
+	Target   string      `json:"target"`
+	URLClass string      `json:"url_class"`
+	Accept   c14Opt      `json:"accept"`
+	SFM      c14Opt      `json:"sec_fetch_mode"`
+	SFD      c14Opt      `json:"sec_fetch_dest"`
+	RefClass string      `json:"referer_class"`
+	Referer  string      `json:"referer"`
+	RefTri   int         `json:"-"`
+	Status   int         `json:"status"`
+	CT       c14Opt      `json:"content_type"`
+	CD       c14Opt      `json:"content_disposition"`
+	CE       string      `json:"content_encoding"`
 	Extra    [][2]string `json:"extra_headers"`
-	BodyKind string   `json:"body_kind"`
-	BodyLen  int      `json:"body_len"`
-	Seg      string   `json:"segmentation"` // one | bytes | split | cuts | none
-	Cuts     []int    `json:"cuts,omitempty"`
-	Explicit bool     `json:"explicit_write_header"`
-	Flush    string   `json:"flush"` // "" | before | after-first
-	Interim  bool     `json:"interim_103"`
-	Banner   int      `json:"banner_html"`
-	FavIcon  int      `json:"fav_icon"`
-	Height   int      `json:"height"`
-	D        int      `json:"-"`
-	Framed   int      `json:"-"`
-	DStr     string   `json:"D"`
-	FStr     string   `json:"framed"`
-	WhyNotD  string   `json:"why_not_D,omitempty"`
+	BodyKind string      `json:"body_kind"`
+	BodyLen  int         `json:"body_len"`
+	Seg      string      `json:"segmentation"` // one | bytes | split | cuts | none
+	Cuts     []int       `json:"cuts,omitempty"`
+	Explicit bool        `json:"explicit_write_header"`
+	Flush    string      `json:"flush"` // "" | before | after-first
+	Interim  bool        `json:"interim_103"`
+	Banner   int         `json:"banner_html"`
+	FavIcon  int         `json:"fav_icon"`
+	Height   int         `json:"height"`
+	D        int         `json:"-"`
+	Framed   int         `json:"-"`
+	DStr     string      `json:"D"`
+	FStr     string      `json:"framed"`
+	WhyNotD  string      `json:"why_not_D,omitempty"`
 	body     []byte
 	mi       int
 }
@@ -229,9 +229,9 @@ func c14Mix(seed, idx int64) int64 {
 
 type c14Flip struct{ dim, opt int }
 
-var c14Flips []c14Flip       // every single-dimension departure from D
-var c14YesOpts [5][]int      // per key dimension: options with Tri == yes
-var c14KeySizes = [5]int{}   // method, accept, status, ct, cd
+var c14Flips []c14Flip     // every single-dimension departure from D
+var c14YesOpts [5][]int    // per key dimension: options with Tri == yes
+var c14KeySizes = [5]int{} // method, accept, status, ct, cd
 
 func c14KeyTri(dim, opt int) int {
 	switch dim {
@@ -456,15 +456,15 @@ func c14GenBanner(seed int64, idx int) *c14BannerCase {
 	if c.D == c14No {
 		switch {
 		case c14Methods[key[0]].Tri == c14No:
-			c.WhyNotD = "method"
+			c.WhyNotD = "non-GET"
 		case c.Accept.Tri == c14No:
-			c.WhyNotD = "accept"
+			c.WhyNotD = "accept-without-html"
 		case st == c14No:
-			c.WhyNotD = "status"
+			c.WhyNotD = "not-200"
 		case c.CD.Tri == c14No:
 			c.WhyNotD = "attachment"
 		default:
-			c.WhyNotD = "content-type"
+			c.WhyNotD = "non-html-type"
 		}
 	}
 	return c
@@ -590,7 +590,7 @@ func (c *c14BannerCase) pieces() [][]byte {
 }
 
 // makesHeaderCall reports whether the handler calls WriteHeader or Write at all.
-func (c *c14BannerCase) makesHeaderCall() bool { return c.Explicit || c.Seg != "none" }
+func (c *c14BannerCase) makesHeaderCall() bool { return c.Explicit || len(c.pieces()) > 0 }
 
 // c14Rec records what a handler hands to its ResponseWriter, with the
 // semantics of net/http's server (and of the agent's own writer): the first
@@ -605,9 +605,9 @@ type c14Rec struct {
 	flushes int
 }
 
-func newC14Rec() *c14Rec                  { return &c14Rec{hdr: http.Header{}} }
-func (r *c14Rec) Header() http.Header    { return r.hdr }
-func (r *c14Rec) Flush()                 { r.WriteHeader(200); r.flushes++ }
+func newC14Rec() *c14Rec              { return &c14Rec{hdr: http.Header{}} }
+func (r *c14Rec) Header() http.Header { return r.hdr }
+func (r *c14Rec) Flush()              { r.WriteHeader(200); r.flushes++ }
 func (r *c14Rec) Write(b []byte) (int, error) {
 	r.WriteHeader(200)
 	return r.body.Write(b)
@@ -813,4 +813,625 @@ func c14FrameCheck(c *c14BannerCase, wantURLs []string, o *c14Obs) (problem stri
 		flags = append(flags, "frame-contains-banner-html-verbatim")
 	}
 	return "", flags
+}
+
+// ---------------------------------------------------------------- banner run
+
+// c14ServeBoth serves the scripted handler directly and through banner.Proxy.
+func c14ServeBoth(c *c14BannerCase) (direct, via *c14Obs, wantURLs []string, panicked string, err error) {
+	raw := c.rawRequest()
+	req1, err := c14ParseRequest(raw)
+	if err != nil {
+		return nil, nil, nil, "", fmt.Errorf("harness request does not parse: %v", err)
+	}
+	req2, _ := c14ParseRequest(raw)
+	wantURLs = []string{c.Target}
+	if s := req1.URL.String(); s != c.Target {
+		wantURLs = append(wantURLs, s)
+	}
+	rec1 := newC14Rec()
+	if p := Recovered(func() { c.handler().ServeHTTP(rec1, req1) }); p != "" {
+		return nil, nil, nil, "", fmt.Errorf("scripted handler panicked on its own: %s", p)
+	}
+	direct = rec1.obs()
+	rec2 := newC14Rec()
+	panicked = Recovered(func() {
+		// metricHandler nil: what the agent passes when metrics are not configured
+		h, perr := banner.Proxy(context.Background(), c.handler(), c14Banners[c.Banner], c14Heights[c.Height], c14FavIcons[c.FavIcon], nil)
+		if perr != nil {
+			panic("banner.Proxy returned an error: " + perr.Error())
+		}
+		h.ServeHTTP(rec2, req2)
+	})
+	via = rec2.obs()
+	return
+}
+
+// c14JudgeBanner applies the oracle; returns the result line.
+func c14JudgeBanner(c *c14BannerCase) c14Result {
+	res := c14Result{I: c.Idx, Kind: "banner", Class: c.class()}
+	direct, via, wantURLs, panicked, err := c14ServeBoth(c)
+	if err != nil {
+		res.Outcome, res.Sig, res.Msg = "harness-error", "HARNESS", err.Error()
+		return res
+	}
+	fail := func(sig, msg string) c14Result {
+		res.Sig, res.Msg, res.Case = sig, msg, c
+		res.Detail = map[string]interface{}{"raw_request": string(c.rawRequest()), "direct": direct, "through_banner": via,
+			"banner_html": c14Banners[c.Banner], "fav_icon_url": c14FavIcons[c.FavIcon], "requested_url": wantURLs}
+		return res
+	}
+	if panicked != "" {
+		res.Outcome = "panic"
+		return fail("C14:panic:banner", "banner.Proxy handler panicked: "+panicked)
+	}
+	sameBody := bytes.Equal(direct.body, via.body)
+	hdrDiff := c14HeaderDiff(direct.Header, via.Header)
+	sameAll := sameBody && direct.Status == via.Status && len(hdrDiff) == 0
+	frameProblem, frameFlags := c14FrameCheck(c, wantURLs, via)
+	// a frame whose only fault is that a URL with HTML-special characters was
+	// pasted into the src attribute unescaped gets its own signature
+	unescaped := frameProblem == "frame-missing-url" && (c.URLClass == "quote" || c.URLClass == "entity") &&
+		len(c14IframeSrcs(string(via.body))) > 0 && len(frameFlags) == 0
+	isFrame := frameProblem == "" && !sameBody
+	pre := "C14:banner:"
+	if c.Interim {
+		pre = "C14:banner:interim-1xx:"
+	}
+	describe := func() string {
+		var parts []string
+		if direct.Status != via.Status {
+			parts = append(parts, fmt.Sprintf("status %d became %d", direct.Status, via.Status))
+		}
+		if len(hdrDiff) > 0 {
+			parts = append(parts, "headers: "+strings.Join(hdrDiff, "; "))
+		}
+		if !sameBody {
+			parts = append(parts, fmt.Sprintf("body %d B became %d B, first difference at offset %d", len(direct.body), len(via.body), c14FirstDiff(direct.body, via.body)))
+		}
+		return strings.Join(parts, " | ")
+	}
+	input := fmt.Sprintf("%s %s Accept=%q Sec-Fetch-Mode=%q Sec-Fetch-Dest=%q Referer[%s]=%q -> backend %d Content-Type=%q Content-Disposition=%q (D=%s framed=%s, writes=%s explicitWriteHeader=%v interim103=%v)",
+		c.Method, c.Target, c.Accept.Lines, c.SFM.Lines, c.SFD.Lines, c.RefClass, c.Referer, c.Status, c.CT.Lines, c.CD.Lines, c.DStr, c.FStr, c.Seg, c.Explicit, c.Interim)
+
+	switch {
+	case c.D == c14No:
+		if sameAll {
+			res.Outcome = "identical"
+			return res
+		}
+		what := "body"
+		if sameBody {
+			what = "headers"
+			if direct.Status != via.Status {
+				what = "status"
+			}
+		}
+		res.Outcome = "altered"
+		return fail(pre+"non-html-altered:"+what+":"+c.WhyNotD, "response that is not a frameable HTML document ("+c.WhyNotD+") was altered: "+describe()+" | "+input)
+	case c.D == c14Yes && c.Framed == c14Yes:
+		if sameBody {
+			res.Outcome = "framed-original-body"
+			if !sameAll {
+				res.Flags = append(res.Flags, "framed-headers-marked")
+			}
+			return res
+		}
+		res.Outcome = "altered"
+		return fail(pre+"framed-body-altered", "already framed request did not get the original body: "+describe()+" | "+input)
+	case c.D == c14Yes && c.Framed == c14No:
+		if isFrame {
+			res.Outcome, res.Flags = "frame", frameFlags
+			return res
+		}
+		if sameAll && !c.makesHeaderCall() {
+			// the handler never called WriteHeader/Write: nothing passed through the
+			// writer, so whether a frame is due is not fixed by the statement
+			res.Outcome = "identical"
+			res.Flags = append(res.Flags, "D-but-handler-made-no-call")
+			return res
+		}
+		if sameBody {
+			res.Outcome = "frame-not-served"
+			return fail(pre+"frame-not-served", "frameable HTML reply to an unframed request was passed through without the frame: "+describe()+" | "+input)
+		}
+		res.Outcome = "bad-frame"
+		sig := pre + frameProblem
+		if unescaped {
+			sig = pre + "frame-url-unescaped:" + c.URLClass
+		}
+		return fail(sig, fmt.Sprintf("frame page is not well formed (%s): iframe src values %q, requested URL %q, Cache-Control %q, X-Frame-Options %q, status %d | %s",
+			frameProblem, c14IframeSrcs(string(via.body)), wantURLs, via.Header["cache-control"], via.Header["x-frame-options"], via.Status, input))
+	default:
+		// classification left open by the statement (D open, or D yes with framing open)
+		okIdent := sameAll
+		okBody := sameBody && direct.Status == via.Status && (c.Framed != c14No || sameAll)
+		okFrame := isFrame && c.Framed != c14Yes
+		switch {
+		case okIdent:
+			res.Outcome = "open:identical"
+		case okBody:
+			res.Outcome = "open:original-body"
+		case okFrame:
+			res.Outcome, res.Flags = "open:frame", frameFlags
+		case unescaped && c.Framed != c14Yes:
+			res.Outcome = "bad-frame"
+			return fail(pre+"frame-url-unescaped:"+c.URLClass, fmt.Sprintf("frame page is not well formed (frame-missing-url): iframe src values %q, requested URL %q | %s", c14IframeSrcs(string(via.body)), wantURLs, input))
+		default:
+			res.Outcome = "altered"
+			return fail(pre+"open-class-neither-identical-nor-frame", fmt.Sprintf("neither the original response nor a well-formed frame (%s): %s | %s", frameProblem, describe(), input))
+		}
+		return res
+	}
+}
+
+// ------------------------------------------------------------------ shim run
+
+const (
+	c14ShimStart = "<!--START_WEBSOCKET_SHIM-->"
+	c14ShimEnd   = "<!--END_WEBSOCKET_SHIM-->"
+)
+
+var c14ShimCTs = []c14Opt{
+	{"html", []string{"text/html; charset=utf-8"}, c14Yes},
+	{"html-bare", []string{"text/html"}, c14Yes},
+	{"html-upper", []string{"TEXT/HTML"}, c14Yes},
+	{"xhtml", []string{"application/xhtml+xml"}, c14Yes},
+	{"plain", []string{"text/plain"}, c14No},
+	{"json", []string{"application/json"}, c14No},
+	{"png", []string{"image/png"}, c14No},
+	{"absent", nil, c14No},
+	{"two-nonhtml", []string{"text/plain", "application/json"}, c14No},
+	{"two-mixed", []string{"text/plain", "text/html"}, c14Yes}, // an HTML value is present: either outcome allowed
+}
+
+var c14ShimLayouts = []string{"at0", "small", "edge", "edge", "edge", "beyond", "absent", "twice-in", "twice-straddle", "twice-adjacent",
+	"upper", "attr", "upper-then-lower", "header-then-head", "empty", "short", "ends-at-1024"}
+var c14ShimSegs = []string{"all", "one", "seven", "upto", "upto", "kib", "rand"}
+var c14ShimPaths = []string{"shim", "ws-shim/v1", "s"}
+
+type c14ShimCase struct {
+	Idx      int    `json:"idx"`
+	ID       string `json:"id"`
+	CT       c14Opt `json:"content_type"`
+	Layout   string `json:"layout"`
+	Heads    []int  `json:"head_offsets"` // offsets of "<head>" in the body
+	BodyLen  int    `json:"body_len"`
+	Seg      string `json:"read_segmentation"`
+	First    int    `json:"first_read,omitempty"` // "upto": bytes returned by the first Read
+	EOFData  bool   `json:"eof_with_last_data"`
+	CL       bool   `json:"content_length_header"`
+	ReadBuf  int    `json:"client_read_buffer"`
+	ShimPath string `json:"shim_path"`
+	Status   int    `json:"status"`
+	body     []byte
+	rseed    int64
+}
+
+func c14GenShim(seed int64, idx, ord int) *c14ShimCase {
+	rng := rand.New(rand.NewSource(c14Mix(seed, int64(idx))))
+	c := &c14ShimCase{Idx: idx, ID: fmt.Sprintf("s%d", idx), rseed: c14Mix(seed, int64(idx)+7)}
+	// enumerate (layout, segmentation, content type); the rest is random fill
+	nL, nS, nC := len(c14ShimLayouts), len(c14ShimSegs), len(c14ShimCTs)
+	total := nL * nS * nC
+	pos := (ord * c14Coprime(611, total)) % total
+	c.Layout = c14ShimLayouts[pos%nL]
+	c.Seg = c14ShimSegs[(pos/nL)%nS]
+	c.CT = c14ShimCTs[pos/(nL*nS)]
+	if ord%2 == 1 { // every other case is an HTML type: that is where the splice runs
+		c.CT = c14ShimCTs[(pos/(nL*nS))%4]
+	}
+	binary := c.CT.Tri == c14No && rng.Intn(2) == 0
+	put := func(b []byte, off int, tag string) []byte {
+		for len(b) < off+len(tag) {
+			b = append(b, ' ')
+		}
+		copy(b[off:], tag)
+		return b
+	}
+	tail := rng.Intn(3000)
+	if rng.Intn(4) == 0 {
+		tail = 0
+	}
+	var b []byte
+	switch c.Layout {
+	case "at0":
+		b = put(c14Filler(rng, 6+tail, binary), 0, "<head>")
+	case "small":
+		off := 1 + rng.Intn(1000)
+		b = put(c14Filler(rng, off+6+tail, binary), off, "<head>")
+	case "edge":
+		off := 1010 + (ord/total+ord)%21 // 1010..1030: every position around the 1 KiB window
+		b = put(c14Filler(rng, off+6+tail, binary), off, "<head>")
+	case "beyond":
+		off := 1024 + rng.Intn(5000)
+		b = put(c14Filler(rng, off+6+tail, binary), off, "<head>")
+	case "absent":
+		b = c14Filler(rng, 1+rng.Intn(4000), binary)
+	case "twice-in":
+		o1 := rng.Intn(400)
+		o2 := o1 + 6 + rng.Intn(400)
+		b = put(put(c14Filler(rng, o2+6+tail, binary), o1, "<head>"), o2, "<head>")
+	case "twice-straddle":
+		o1 := rng.Intn(1000)
+		o2 := 1019 + rng.Intn(3000)
+		if o2 < o1+6 {
+			o2 = o1 + 6
+		}
+		b = put(put(c14Filler(rng, o2+6+tail, binary), o1, "<head>"), o2, "<head>")
+	case "twice-adjacent":
+		o1 := rng.Intn(1030)
+		b = put(c14Filler(rng, o1+12+tail, binary), o1, "<head><head>")
+	case "upper":
+		off := rng.Intn(900)
+		b = put(c14Filler(rng, off+6+tail, binary), off, "<HEAD>")
+	case "attr":
+		off := rng.Intn(900)
+		b = put(c14Filler(rng, off+16+tail, binary), off, `<head lang="en">`)
+	case "upper-then-lower":
+		o1 := rng.Intn(500)
+		o2 := o1 + 6 + rng.Intn(1500)
+		b = put(put(c14Filler(rng, o2+6+tail, binary), o1, "<HEAD>"), o2, "<head>")
+	case "header-then-head":
+		o1 := rng.Intn(500)
+		o2 := o1 + 8 + rng.Intn(600)
+		b = put(put(c14Filler(rng, o2+6+tail, binary), o1, "<header>"), o2, "<head>")
+	case "empty":
+		b = nil
+	case "short":
+		b = []byte("<head>"[:1+rng.Intn(5)])
+	case "ends-at-1024":
+		b = put(c14Filler(rng, 1024, binary), 1018, "<head>")
+	}
+	c.body, c.BodyLen = b, len(b)
+	for off := 0; ; {
+		i := bytes.Index(b[off:], []byte("<head>"))
+		if i < 0 {
+			break
+		}
+		c.Heads = append(c.Heads, off+i)
+		off += i + 1
+	}
+	if c.Seg == "upto" {
+		cands := []int{1, 1023, 1024, 1025}
+		if len(c.Heads) > 0 {
+			h := c.Heads[0]
+			cands = append(cands, h, h+1, h+3, h+5, h+6, h+7)
+		}
+		c.First = cands[rng.Intn(len(cands))]
+		if c.First < 1 {
+			c.First = 1
+		}
+	}
+	c.EOFData = rng.Intn(2) == 0
+	c.CL = rng.Intn(2) == 0
+	c.ReadBuf = []int{0, 0, 1, 13, 512, 4096}[rng.Intn(6)]
+	c.ShimPath = c14ShimPaths[rng.Intn(len(c14ShimPaths))]
+	c.Status = []int{200, 200, 200, 404, 500}[rng.Intn(5)]
+	return c
+}
+
+func (c *c14ShimCase) class() string {
+	return fmt.Sprintf("shim|ct:%s|%s|read:%s|cl:%v", c.CT.Name, c.Layout, c.Seg, c.CL)
+}
+
+// c14Reader is the scripted backend body.
+type c14Reader struct {
+	data    []byte
+	pos     int
+	calls   int
+	seg     string
+	first   int
+	eofData bool
+	rng     *rand.Rand
+	closed  int
+	firstN  int
+}
+
+func (r *c14Reader) Read(p []byte) (int, error) {
+	if r.pos >= len(r.data) {
+		return 0, io.EOF
+	}
+	if len(p) == 0 {
+		return 0, nil
+	}
+	k := len(r.data) - r.pos
+	switch r.seg {
+	case "one":
+		k = 1
+	case "seven":
+		k = 7
+	case "kib":
+		k = 1024
+	case "rand":
+		k = 1 + r.rng.Intn(2000)
+	case "upto":
+		if r.calls == 0 {
+			k = r.first
+		}
+	}
+	if k > len(r.data)-r.pos {
+		k = len(r.data) - r.pos
+	}
+	if k > len(p) {
+		k = len(p)
+	}
+	copy(p, r.data[r.pos:r.pos+k])
+	r.pos += k
+	if r.calls == 0 {
+		r.firstN = k
+	}
+	r.calls++
+	if r.pos == len(r.data) && r.eofData {
+		return k, io.EOF
+	}
+	return k, nil
+}
+func (r *c14Reader) Close() error { r.closed++; return nil }
+
+var c14ShimFuncs = map[string]func(*http.Response) error{}
+
+func c14ShimFunc(path string) (func(*http.Response) error, error) {
+	if f, ok := c14ShimFuncs[path]; ok {
+		return f, nil
+	}
+	f, err := websockets.ShimBody(path)
+	if err == nil {
+		c14ShimFuncs[path] = f
+	}
+	return f, err
+}
+
+func c14JudgeShim(c *c14ShimCase) c14Result {
+	res := c14Result{I: c.Idx, Kind: "shim", Class: c.class()}
+	orig := c.body
+	h := http.Header{}
+	for _, v := range c.CT.Lines {
+		h.Add("Content-Type", v)
+	}
+	h.Add("Set-Cookie", "a=1; Path=/")
+	h.Add("Set-Cookie", "b=2; Path=/x")
+	h.Add("X-Case", c.ID)
+	if c.CL {
+		h.Set("Content-Length", fmt.Sprint(len(orig)))
+	}
+	before := map[string][]string{}
+	for k, v := range h {
+		before[strings.ToLower(k)] = append([]string(nil), v...)
+	}
+	rd := &c14Reader{data: orig, seg: c.Seg, first: c.First, eofData: c.EOFData, rng: rand.New(rand.NewSource(c.rseed))}
+	resp := &http.Response{StatusCode: c.Status, Status: http.StatusText(c.Status), Proto: "HTTP/1.1", ProtoMajor: 1, ProtoMinor: 1,
+		Header: h, Body: rd, ContentLength: -1}
+	if c.CL {
+		resp.ContentLength = int64(len(orig))
+	}
+	var out []byte
+	var ferr, rerr error
+	panicked := Recovered(func() {
+		f, err := c14ShimFunc(c.ShimPath)
+		if err != nil {
+			ferr = err
+			return
+		}
+		if ferr = f(resp); ferr != nil {
+			return
+		}
+		if c.ReadBuf == 0 {
+			out, rerr = io.ReadAll(resp.Body)
+		} else {
+			buf := make([]byte, c.ReadBuf)
+			for {
+				n, err := resp.Body.Read(buf)
+				out = append(out, buf[:n]...)
+				if err == io.EOF {
+					break
+				}
+				if err != nil {
+					rerr = err
+					break
+				}
+			}
+		}
+		resp.Body.Close()
+	})
+	after := map[string][]string{}
+	for k, v := range resp.Header {
+		after[strings.ToLower(k)] = append([]string(nil), v...)
+	}
+	firstRead := rd.firstN // what the first Read of the backend body returned
+	fail := func(sig, msg string) c14Result {
+		res.Sig, res.Case = sig, c
+		res.Msg = fmt.Sprintf("%s | Content-Type=%q layout=%s <head> at %v of %d B, reads=%s first=%d eofWithData=%v", msg, c.CT.Lines, c.Layout, c.Heads, len(orig), c.Seg, c.First, c.EOFData)
+		res.Detail = map[string]interface{}{"original_len": len(orig), "output_len": len(out), "first_difference": c14FirstDiff(orig, out),
+			"original_around": c14Around(orig, c14FirstDiff(orig, out)), "output_around": c14Around(out, c14FirstDiff(orig, out)),
+			"headers_before": before, "headers_after": after}
+		return res
+	}
+	if panicked != "" {
+		res.Outcome = "panic"
+		return fail("C14:panic:shim", "ShimBody function or the body it installed panicked: "+panicked)
+	}
+	if ferr != nil || rerr != nil {
+		res.Outcome = "error"
+		return fail("C14:shim:unexpected-error", fmt.Sprintf("error on an error-free backend body: shim=%v read=%v", ferr, rerr))
+	}
+	hdrDiff := c14HeaderDiff(before, after)
+	if c.CT.Tri == c14No {
+		if !bytes.Equal(orig, out) {
+			res.Outcome = "altered"
+			return fail("C14:shim:non-html-altered:body", "body of a non-HTML response was altered")
+		}
+		if len(hdrDiff) > 0 {
+			res.Outcome = "altered"
+			return fail("C14:shim:non-html-altered:headers", "headers of a non-HTML response were altered: "+strings.Join(hdrDiff, "; "))
+		}
+		res.Outcome = "shim:identical-nonhtml"
+		return res
+	}
+	// HTML: Content-Length removed or still correct
+	if cl, ok := after["content-length"]; ok && (len(cl) != 1 || cl[0] != fmt.Sprint(len(out))) {
+		res.Outcome = "altered"
+		return fail("C14:shim:content-length-stale", fmt.Sprintf("Content-Length %q left on a body of %d B", cl, len(out)))
+	}
+	if bytes.Equal(orig, out) {
+		res.Outcome = "shim:not-inserted"
+		switch {
+		case len(c.Heads) == 0:
+			res.Flags = append(res.Flags, "not-inserted:no-head-tag")
+		case c.Heads[0]+6 > firstRead || c.Heads[0]+6 > 1024:
+			res.Flags = append(res.Flags, "not-inserted:head-beyond-first-read-or-window")
+		case c.CT.Name == "two-mixed":
+			res.Flags = append(res.Flags, "not-inserted:first-content-type-value-not-html")
+		default:
+			res.Flags = append(res.Flags, "not-inserted:head-within-first-read")
+		}
+		return res
+	}
+	res.Outcome = "altered"
+	if n := bytes.Count(out, []byte(c14ShimStart)); n != 1 || bytes.Count(out, []byte(c14ShimEnd)) != 1 {
+		if n > 1 {
+			return fail("C14:shim:inserted-twice", fmt.Sprintf("%d script blocks in the output", n))
+		}
+		return fail("C14:shim:body-corrupted", "output differs from the original but holds no complete script block")
+	}
+	s := bytes.Index(out, []byte(c14ShimStart))
+	e := bytes.Index(out, []byte(c14ShimEnd))
+	if e < s {
+		return fail("C14:shim:body-corrupted", "END marker before START marker")
+	}
+	p := s
+	if !bytes.HasSuffix(out[:p], []byte("<head>")) && p > 0 && out[p-1] == '\n' {
+		p-- // the newline the template emits before the START marker
+	}
+	q := e + len(c14ShimEnd)
+	okSplice := false
+	for _, qq := range []int{q + 1, q} { // with or without the template's trailing newline
+		if qq <= len(out) && (qq == q || out[q] == '\n') && bytes.Equal(append(append([]byte{}, out[:p]...), out[qq:]...), orig) {
+			okSplice = true
+		}
+	}
+	if !okSplice {
+		return fail("C14:shim:body-corrupted", "output minus the script block is not the original body")
+	}
+	if !bytes.HasSuffix(out[:p], []byte("<head>")) || len(c.Heads) == 0 || p-6 != c.Heads[0] {
+		return fail("C14:shim:not-after-first-head", fmt.Sprintf("script block inserted at offset %d, first <head> is at %v", p, c.Heads))
+	}
+	res.Outcome = "shim:inserted"
+	if c.Heads[0]+6 > firstRead {
+		res.Flags = append(res.Flags, "inserted:tag-completed-after-first-read")
+	}
+	if !bytes.Contains(out[s:q], []byte("/"+c.ShimPath+"/")) {
+		res.Flags = append(res.Flags, "script-lacks-shim-path")
+	}
+	return res
+}
+
+func c14Around(b []byte, at int) string {
+	lo, hi := at-40, at+80
+	if lo < 0 {
+		lo = 0
+	}
+	if hi > len(b) {
+		hi = len(b)
+	}
+	if lo > hi {
+		lo = hi
+	}
+	return fmt.Sprintf("[%d:%d] %q", lo, hi, b[lo:hi])
+}
+
+// c14NilCases: nil response / nil body / empty header must not panic.
+func c14NilCases(base int) []c14Result {
+	var out []c14Result
+	cases := []struct {
+		name string
+		resp func() *http.Response
+	}{
+		{"nil-response", func() *http.Response { return nil }},
+		{"nil-body", func() *http.Response {
+			return &http.Response{StatusCode: 304, Header: http.Header{"Content-Type": {"text/html"}}}
+		}},
+		{"nil-header-nil-body", func() *http.Response { return &http.Response{StatusCode: 204} }},
+		{"no-body-html", func() *http.Response {
+			return &http.Response{StatusCode: 200, Header: http.Header{"Content-Type": {"text/html"}}, Body: http.NoBody}
+		}},
+		{"nil-header-with-body", func() *http.Response {
+			return &http.Response{StatusCode: 200, Body: io.NopCloser(strings.NewReader("<head>x"))}
+		}},
+	}
+	for i, nc := range cases {
+		id := fmt.Sprintf("n%d", i)
+		Start(id)
+		res := c14Result{I: base + i, Kind: "nil", Class: "shim|" + nc.name, Outcome: "nil:no-panic"}
+		var ferr error
+		var got []byte
+		p := Recovered(func() {
+			f, err := c14ShimFunc("shim")
+			if err != nil {
+				ferr = err
+				return
+			}
+			r := nc.resp()
+			if ferr = f(r); ferr == nil && r != nil && r.Body != nil {
+				got, _ = io.ReadAll(r.Body)
+				r.Body.Close()
+			}
+		})
+		switch {
+		case p != "":
+			res.Outcome, res.Sig, res.Msg = "panic", "C14:panic:shim-"+nc.name, "ShimBody function panicked on "+nc.name+": "+p
+		case ferr != nil:
+			res.Outcome, res.Sig, res.Msg = "error", "C14:shim:unexpected-error", nc.name+": "+ferr.Error()
+		case nc.name == "nil-header-with-body" && string(got) != "<head>x":
+			res.Outcome, res.Sig, res.Msg = "altered", "C14:shim:non-html-altered:body", fmt.Sprintf("body of a response without Content-Type became %q", got)
+		}
+		out = append(out, res)
+	}
+	return out
+}
+
+// ---------------------------------------------------------------------- main
+
+func c14Main(specJSON []byte) {
+	var spec c14Spec
+	if err := json.Unmarshal(specJSON, &spec); err != nil || spec.Shards <= 0 {
+		Emit(map[string]string{"fatal": fmt.Sprintf("bad spec: %v", err)})
+		return
+	}
+	_ = url.Parse // net/url is the harness' own reference for request targets
+	total := spec.Banner + spec.Shim
+	for idx := 0; idx < total; idx++ {
+		if spec.Only >= 0 {
+			if idx != spec.Only {
+				continue
+			}
+		} else if idx%spec.Shards != spec.Shard {
+			continue
+		}
+		if idx < spec.Banner {
+			c := c14GenBanner(spec.Seed, idx)
+			Start(c.ID)
+			res := c14JudgeBanner(c)
+			if res.Sig == "" && idx < 3*spec.Shards && spec.Only < 0 {
+				res.Case = c // a few written-out cases for the evidence
+			}
+			Emit(res)
+		} else {
+			c := c14GenShim(spec.Seed, idx, idx-spec.Banner)
+			Start(c.ID)
+			res := c14JudgeShim(c)
+			if res.Sig == "" && idx-spec.Banner < 2*spec.Shards && spec.Only < 0 {
+				res.Case = c
+			}
+			Emit(res)
+		}
+	}
+	if spec.Only < 0 && spec.Shard == 0 || spec.Only >= total {
+		for _, res := range c14NilCases(total) {
+			if spec.Only < 0 || spec.Only == res.I {
+				Emit(res)
+			}
+		}
+	}
+	Emit(map[string]interface{}{"done": spec.Shard})
 }
